@@ -12,7 +12,13 @@
 (*                                                                          *)
 (* pc values are "<point kind>:<operation>".                               *)
 (*                                                                          *)
-(* Properties: C03 (ReadsRight, WindowsDisjoint, Counts)                   *)
+(* Tags: every committed sample carries one tag whose value is the         *)
+(* sample's id (the harness clients do that), so that the tag map of the   *)
+(* ring is a function of the ring state and costs no extra states. A read  *)
+(* window carries the tags snapshotted with it (third component of cwin).  *)
+(*                                                                          *)
+(* Properties: C03 (ReadsRight, WindowsDisjoint, Counts, TagsComplete,     *)
+(*                  WindowTagsRight)                                        *)
 (*             C04 (NeverIsTrue, EofIsTrue, NoLoss, LateFalse)             *)
 EXTENDS Integers, Sequences, FiniteSets, TLC
 
@@ -24,6 +30,7 @@ CONSTANTS Cap,       \* ring capacity
           Quirks     \* modelled deviations; {} = the code as it should be
 
 VARIABLES rpos, wpos, used, mem, produced, consumed,  \* ring (BufferState + memory)
+          tags,                                       \* BufferState.tags: set of <<cell, id>>
           wAlive, rAlive,                             \* stream handles not yet dropped
           ppc, pwin, parg, pgot, pclosed, pret, pcalls,
           cpc, cwin, carg, cgot, cclosed, cret, ccalls,
@@ -32,7 +39,7 @@ VARIABLES rpos, wpos, used, mem, produced, consumed,  \* ring (BufferState + mem
           lateFalse,                                  \* see LateFalse
           started                                     \* wait in progress began after closure
 
-ring  == <<rpos, wpos, used, mem, produced, consumed>>
+ring  == <<rpos, wpos, used, mem, produced, consumed, tags>>
 pvars == <<ppc, pwin, parg, pgot, pclosed, pret, pcalls>>
 cvars == <<cpc, cwin, carg, cgot, cclosed, cret, ccalls>>
 vars  == <<ring, wAlive, rAlive, pvars, cvars, notified, readOK, lateFalse, started>>
@@ -44,7 +51,7 @@ NoRet == "-"
 
 Init ==
   /\ rpos = 0 /\ wpos = 0 /\ used = 0 /\ mem = [c \in Cells |-> 0]
-  /\ produced = 0 /\ consumed = 0
+  /\ produced = 0 /\ consumed = 0 /\ tags = {}
   /\ wAlive = TRUE /\ rAlive = TRUE
   /\ ppc = "start" /\ pwin = <<>> /\ parg = <<>> /\ pgot = 0 /\ pclosed = FALSE
   /\ pret = NoRet /\ pcalls = 0
@@ -52,6 +59,12 @@ Init ==
   /\ cret = NoRet /\ ccalls = 0
   /\ notified = [t \in {"P", "C"} |-> FALSE]
   /\ readOK = TRUE /\ lateFalse = 0 /\ started = FALSE
+
+(* Cells start, start+1, ... (n of them, modulo Cap).                       *)
+InRun(c, start, n) == (c + Cap - start) % Cap < n
+(* Tags of a read window, positions relative to its start.                 *)
+WinTags(start, n) == {<<(t[1] + Cap - start) % Cap, t[2]>> : t \in {x \in tags : InRun(x[1], start, n)}}
+Prune(start, n) == {t \in tags : ~InRun(t[1], start, n)}
 
 (* notify_all: every thread parked on the condvar becomes notifiable.      *)
 Notify == [t \in {"P", "C"} |->
@@ -128,7 +141,7 @@ P_MemWrite ==
                IF rel < parg[1] THEN produced + rel + 1 ELSE mem[c]]
   /\ ppc' = IF parg[2] = 0 THEN "cmd" ELSE "lock:commit"
   /\ pwin' = IF parg[2] = 0 THEN <<>> ELSE pwin     \* produce(0): no lock
-  /\ UNCHANGED <<rpos, wpos, used, produced, consumed, wAlive, rAlive,
+  /\ UNCHANGED <<rpos, wpos, used, produced, consumed, tags, wAlive, rAlive,
                  parg, pgot, pclosed, pret, pcalls, cvars, notified, readOK, lateFalse, started>>
 
 (* --- produce(n > 0): Lock -> update + notify_all -> Unlocked             *)
@@ -137,6 +150,7 @@ P_LockCommit ==
   /\ parg[2] <= Free      \* otherwise the assert fires; unreachable under discipline
   /\ wpos' = (wpos + parg[2]) % Cap /\ used' = used + parg[2]
   /\ produced' = produced + parg[2]
+  /\ tags' = tags \cup {<<(wpos + j) % Cap, produced + j + 1>> : j \in 0 .. (parg[2] - 1)}
   /\ notified' = Notify
   /\ ppc' = "unlocked:commit"
   /\ pwin' = <<>>   \* produce(self) consumed the window: no write through it is possible any more
@@ -243,7 +257,7 @@ C_CmdDrop ==
 
 C_LockAcqR ==
   /\ cpc = "lock:acqr"
-  /\ cwin' = <<rpos, used>> /\ cpc' = "unlocked:acqr"
+  /\ cwin' = <<rpos, used, WinTags(rpos, used)>> /\ cpc' = "unlocked:acqr"
   /\ UNCHANGED <<ring, wAlive, rAlive, pvars, carg, cgot, cclosed, cret, ccalls,
                  notified, readOK, lateFalse, started>>
 C_UnlAcqR ==
@@ -261,16 +275,29 @@ C_MemRead ==
   /\ UNCHANGED <<ring, wAlive, rAlive, pvars, carg, cgot, cclosed, cret, ccalls,
                  notified, lateFalse, started>>
 
+(* Quirk consume_two_sections: the space is handed back (and the writer   *)
+(* woken) in one critical section, the tags of the consumed samples are    *)
+(* removed in a second one, by position.                                   *)
 C_LockConsume ==
   /\ cpc = "lock:consume"
   /\ carg[1] <= used
   /\ rpos' = (rpos + carg[1]) % Cap /\ used' = used - carg[1]
   /\ consumed' = consumed + carg[1]
   /\ notified' = Notify
-  /\ cpc' = "unlocked:consume"
+  /\ IF "consume_two_sections" \in Quirks
+     THEN tags' = tags /\ carg' = <<carg[1], rpos>> /\ cpc' = "unlocked:consume_a"
+     ELSE tags' = Prune(rpos, carg[1]) /\ carg' = carg /\ cpc' = "unlocked:consume"
   /\ cwin' = <<>>   \* consume(self) consumed the window
-  /\ UNCHANGED <<wpos, mem, produced, wAlive, rAlive, pvars, carg, cgot, cclosed, cret, ccalls,
+  /\ UNCHANGED <<wpos, mem, produced, wAlive, rAlive, pvars, cgot, cclosed, cret, ccalls,
                  readOK, lateFalse, started>>
+C_UnlConsumeA ==
+  /\ cpc = "unlocked:consume_a" /\ cpc' = "lock:prune"
+  /\ UNCHANGED <<ring, wAlive, rAlive, pvars, cwin, carg, cgot, cclosed, cret, ccalls,
+                 notified, readOK, lateFalse, started>>
+C_LockPrune ==
+  /\ cpc = "lock:prune" /\ tags' = Prune(carg[2], carg[1]) /\ cpc' = "unlocked:consume"
+  /\ UNCHANGED <<rpos, wpos, used, mem, produced, consumed, wAlive, rAlive, pvars, cwin, carg, cgot,
+                 cclosed, cret, ccalls, notified, readOK, lateFalse, started>>
 C_UnlConsume ==
   /\ cpc = "unlocked:consume" /\ cpc' = "cmd"
   /\ UNCHANGED <<ring, wAlive, rAlive, pvars, cwin, carg, cgot, cclosed, cret, ccalls,
@@ -343,6 +370,7 @@ CNext ==
   \/ \E m \in {0, 1, Cap} : C_CmdGet(IF cwin # <<>> /\ m = Cap THEN cwin[2] ELSE m)
   \/ \E need \in Needs : C_CmdWaitR(need)
   \/ C_LockAcqR \/ C_UnlAcqR \/ C_MemRead \/ C_LockConsume \/ C_UnlConsume
+  \/ C_UnlConsumeA \/ C_LockPrune
   \/ C_RcWaitR \/ C_LockWaitR \/ C_CvWaitR("timeout") \/ C_CvWaitR("notified") \/ C_UnlWaitR
   \/ C_RcEof \/ C_LockEof \/ C_UnlEof
   \/ C_Drop
@@ -357,6 +385,12 @@ ReadsRight == readOK
 (* Cells of a live write window never overlap cells of a live read window. *)
 WinCells(w) == {(w[1] + j) % Cap : j \in 0 .. (w[2] - 1)}
 WindowsDisjoint == (pwin # <<>> /\ cwin # <<>>) => WinCells(pwin) \cap WinCells(cwin) = {}
+(* Every committed, unconsumed sample still has its tag (commit and consume *)
+(* are atomic with respect to each other also for the tag map) ...          *)
+TagsComplete == \A k \in 1 .. used : <<(rpos + k - 1) % Cap, consumed + k>> \in tags
+(* ... and a read window comes with exactly the tags of its samples         *)
+(* (window and tags are one snapshot: nothing torn, duplicated or skipped). *)
+WindowTagsRight == cwin # <<>> => cwin[3] = {<<k - 1, consumed + k>> : k \in 1 .. cwin[2]}
 (* Committed data is what the producer wrote. *)
 Committed == \A k \in 1 .. used : mem[(rpos + k - 1) % Cap] = consumed + k
 
@@ -375,6 +409,6 @@ NoLoss == consumed + used = produced
 (* and the remainder is insufficient returns "never" (no false answers).   *)
 LateFalse == lateFalse = 0
 
-Inv == Counts /\ ReadsRight /\ WindowsDisjoint /\ Committed
+Inv == Counts /\ ReadsRight /\ WindowsDisjoint /\ Committed /\ TagsComplete /\ WindowTagsRight
        /\ NeverIsTrue /\ EofIsTrue /\ NoLoss /\ LateFalse
 =============================================================================
